@@ -1,6 +1,5 @@
 """C46  Bounded least squares respects bounds and never gets worse (DESIGN.md §5.C46)."""
 import json
-import math
 import os
 import struct
 
@@ -324,20 +323,36 @@ def oracle(spec, d):
 LIN_TOL = 1e-6
 
 
+def linear_scope(spec):
+    """The linear -> bounded-global-minimum claim is sampled for default solver settings, enough iterations,
+    moderate scalings (x_scale within 1e-3..1e3: mu_min/mu_max act on the scaled problem) and a clipped start of
+    moderate magnitude (|x| <= 1e7; the emulated one-sided bounds are at +-1e9)."""
+    if spec["max_iter"] < 20 or any(spec.get(k) for k in ("mu_max", "mu_factor", "mu_min", "xtol", "gtol", "eps")):
+        return None
+    x0 = [h2f(h) for h in spec["x0"]]
+    if spec["lo"] is not None:
+        x0 = [min(max(v, h2f(a)), h2f(b)) for v, a, b in zip(x0, spec["lo"], spec["hi"])]
+    if spec["scale_kind"] in ("extreme", "jac") or max(abs(v) for v in x0) > 1e7:
+        return "out"
+    return "in"
+
+
 def linear_oracle(spec, d):
-    """linear residual => bounded global minimum (cost of scipy.optimize.lsq_linear)."""
+    """linear residual => bounded global minimum (cost of scipy.optimize.lsq_linear).
+    Returns (scope, relative excess, failure or None)."""
     if spec["fam"] != "lin" or d.get("L", "-") == "-" or "xv" not in d or not d["trace"]:
-        return None, None
-    if spec["max_iter"] < 20 or any(spec.get(k) for k in ("mu_max", "mu_factor", "mu_min", "xtol", "gtol")):
-        return None, None  # the claim is about the default solver settings with enough iterations
+        return None, None, None
+    scope = linear_scope(spec)
+    if scope is None:
+        return None, None, None
     ref = h2f(d["L"])
     got = d["trace"][-1][1]
     dev = (got - ref) / (1.0 + abs(ref))
-    if dev > LIN_TOL:
-        return dev, ("c46:linear-not-at-bounded-minimum", "linear residual: final objective above the bounded global minimum "
-                     "(scipy lsq_linear) by more than 1e-6 relative", {"final": repr(got), "lsq_linear_cost": repr(ref),
-                                                                      "status": d["status"], "iterations": d.get("i")})
-    return dev, None
+    if dev > LIN_TOL and scope == "in":
+        return scope, dev, ("c46:linear-not-at-bounded-minimum", "linear residual: final objective above the bounded global "
+                            "minimum (scipy lsq_linear) by more than 1e-6 relative",
+                            {"final": repr(got), "lsq_linear_cost": repr(ref), "status": d["status"], "iterations": d.get("i")})
+    return scope, dev, None
 
 
 # ======================================================================================================
@@ -363,15 +378,23 @@ def stage_log(ctx, specs):
 
 def run_oracles(ctx, specs, outs, stats, limit=4):
     seen = {}
-    maxdev = 0.0
-    nlin = 0
+    lin = stats.setdefault("lin", {"in_scope": 0, "max_relative_excess_in_scope": 0.0, "out_of_scope": 0,
+                                   "out_of_scope_not_at_minimum": 0, "out_of_scope_example": None})
     for spec, o in zip(specs, outs):
         d = parse_out(o)
         fails = oracle(spec, d)
-        dev, lf = linear_oracle(spec, d)
-        if dev is not None:
-            nlin += 1
-            maxdev = max(maxdev, dev)
+        scope, dev, lf = linear_oracle(spec, d)
+        if scope == "in":
+            lin["in_scope"] += 1
+            lin["max_relative_excess_in_scope"] = max(lin["max_relative_excess_in_scope"], dev)
+        elif scope == "out":
+            lin["out_of_scope"] += 1
+            if dev > LIN_TOL:
+                lin["out_of_scope_not_at_minimum"] += 1
+                if lin["out_of_scope_example"] is None:
+                    lin["out_of_scope_example"] = {"status": d["status"], "relative_excess": dev, "scale_kind": spec["scale_kind"],
+                                                   "start_kind": spec["start_kind"], "bounds_kind": spec["bounds_kind"],
+                                                   "replay": "echo 'run %s |' | %s %s %s" % (enc(spec), PY, IMPL, common.REPO)}
         if lf:
             fails.append(lf)
         st = d["status"]
@@ -385,7 +408,6 @@ def run_oracles(ctx, specs, outs, stats, limit=4):
             if seen.get(key, 0) < limit:
                 seen[key] = seen.get(key, 0) + 1
                 ctx.oracle_failure(key, what, replay_obj(spec, ex))
-    return maxdev, nlin
 
 
 def witness_lines(ctx, count):
@@ -451,8 +473,8 @@ def run(ctx):
     # ---- S: property oracle on the implementation's outputs (those of the logging run)
     rc, outs, e2 = 0, cans, ""
     if rc == 0 and len(outs) == len(specs):
-        maxdev, nlin = run_oracles(ctx, specs, outs, stats)
-        ctx.extra["linear_vs_lsq_linear"] = {"problems": nlin, "max_relative_excess": maxdev, "tolerance": LIN_TOL}
+        run_oracles(ctx, specs, outs, stats)
+        ctx.extra["linear_vs_lsq_linear"] = dict(stats["lin"], tolerance=LIN_TOL)
         k = next((i for i, o in enumerate(outs) if o.startswith("dxTol") and specs[i]["lo"] is not None), 0)
         ctx.sample({"problem": describe(specs[k]), "model_and_impl_output": strip_impl_only(outs[k])[:600]})
         k = next((i for i, o in enumerate(outs) if o.startswith("noImprovement")), 1)
@@ -474,6 +496,19 @@ def run(ctx):
             ctx.count(enc(s))
     else:
         ctx.oracle_failure("c46:harness-crash", "python harness stopped on x_scale='jac' problems (rc=%s)" % rcj, {"stderr": ej[-800:]})
+    # ---- precondition boundary (informational, never a failure): a box wider than ONE finite-difference step but
+    # narrower than TWO lets a probe escape (theorem fd_probe_escapes_narrow_box); count it on the real code
+    nspecs = []
+    for _ in range(20):
+        c = ctx.rng.uniform(-2, 2)
+        w = 1.5 * EPS0 * max(1.0, abs(c))
+        nspecs.append({"fam": "lin", "n": 1, "m": 1, "A": [[f2h(1.0)]], "b": [f2h(c + 5.0)], "q": f2h(0.0),
+                       "x0": [f2h(c + 0.45 * w)], "lo": [f2h(c)], "hi": [f2h(c + w)], "D": None, "max_iter": 3,
+                       "bounds_kind": "narrow", "start_kind": "inside", "scale_kind": "none"})
+    rcn, outn, _ = ctx.run_lines(impl_cmd(), ["run %s |" % enc(s) for s in nspecs], timeout=600)
+    if rcn == 0 and len(outn) == len(nspecs):
+        esc = sum(1 for s, o in zip(nspecs, outn) if any(f[0] == "c46:fd-probe-outside-bounds" for f in oracle(s, parse_out(o))))
+        ctx.extra["boxes_between_1_and_2_fd_steps_wide(outside the precondition)"] = {"problems": len(nspecs), "fd_probe_outside_bounds": esc}
     # ---- Float witnesses of the rounding escape: Lean model arithmetic == numpy arithmetic, and how often it escapes
     if drv:
         wl = witness_lines(ctx, 4000 if thorough else 600)
@@ -510,7 +545,7 @@ def run(ctx):
         for s, o in zip(more, ox):
             d = parse_out(o)
             f = oracle(s, d)
-            _, lf = linear_oracle(s, d)
+            _, _, lf = linear_oracle(s, d)
             if lf:
                 f.append(lf)
             if f:
